@@ -83,10 +83,11 @@ func H_C12_autostack() {
 		cs.SetSp(d)
 		d = VConc(d)
 		checkFrames(cs, d, "setsp")
-		// the stack must be usable afterwards
-		if d < maxSize {
-			cs.Push(callFrame{Pc: 100 + d})
-			checkFrames(cs, d+1, "setsp-then-push")
+		// the stack must be usable afterwards, also across the following segment boundaries (a
+		// segment released to the pool while still referenced would be handed out a second time)
+		for extra := 0; extra < 9 && d+extra < maxSize; extra++ {
+			cs.Push(callFrame{Pc: 100 + d + extra})
+			checkFrames(cs, d+extra+1, "setsp-then-push")
 		}
 	}
 	VReach("end")
